@@ -434,7 +434,7 @@ class TreeSim(taps.Sim):
 
     def touched(self, n):
         """has anything ever moved through this strategy today (so that float residue is possible)?"""
-        if n.cash != 0.0 or n.flows_today != 0.0 or n.last_value != 0.0 or n.fees_today != 0.0:
+        if n.cash != 0.0 or n.flows_today != 0.0 or n.last_value != 0.0 or n.fees_today != 0.0 or n.activity_today:
             return True
         for c in n.children.values():
             if c.issec:
@@ -1060,7 +1060,7 @@ class TreeSim(taps.Sim):
         m = self.model
         root = self.root
         T = self.ti  # index into self.dates of the current date; rows 0..T
-        scale = m.gross()
+        scale = m.gross() + m.peak_ever
         for r in m.root.rows.values():
             scale = max(scale, abs(r["value"]) + abs(r["cash"]))
         tol = REL * scale
